@@ -161,14 +161,14 @@ func (mc *XMCache) newXModelCacheIterator(bucket string, startKey []byte, endKey
 	outputIter := iter
 
 	iter, _ = mc.inputsCache.Select(bucket, startKey, endKey)
-	inputIter := newStripDelIterator(iter)
+	inputIter := newStripDelIterator(iter, true)
 
 	backendIter, err := mc.model.Select(bucket, startKey, endKey)
 	if err != nil {
 		return nil, err
 	}
 	backendIter = newStripDelIterator(
-		newRsetIterator(bucket, backendIter, mc),
+		newRsetIterator(bucket, backendIter, mc), true,
 	)
 	// return newContractIterator(backendIter), nil
 
@@ -176,7 +176,9 @@ func (mc *XMCache) newXModelCacheIterator(bucket string, startKey []byte, endKey
 	// 意味着如果一个key在三个迭代器里面同时出现，优先级高的会覆盖优先级底的
 	multiIter := newMultiIterator(inputIter, backendIter)
 	multiIter = newMultiIterator(outputIter, multiIter)
-	return newContractIterator(multiIter), nil
+	// keys deleted by this execution come out of outputIter as delete markers, and they
+	// must hide the versions below them: strip the markers only after the merge
+	return newContractIterator(newStripDelIterator(multiIter, false)), nil
 }
 
 // GetRWSets get read/write sets
